@@ -4,10 +4,12 @@
    and RawLayerReader::{new, reset_position, seek, read} translated statement by statement from
    /repo over an abstract Stream.  This file proves them equal to / simulated by the hand-written
    model (Reader.v, Blocks.v; the raw layer is in SrcTie3Raw.v) for EVERY stream, buffer size, state and fuel.
+   Since work package blockT the generated functions call the TRANSLATED block parser (gen/Src3b.v), tied to
+   Blocks.parse_block by SrcTie3Block.block_from_src: no trusted link is left on this path.
    An edit of a guard, of the order of two operations, of a state update or of a match arm in
    one of these functions changes the generated definition and a proof below stops compiling. *)
 From MLA Require Import Limit.
-From MLA Require Import Base Stream Blocks Reader.
+From MLA Require Import Base Stream Blocks Reader SrcTie3Block.
 From MLAGen Require Src3d.
 From Coq Require Import ZifyBool ZifyNat ZifyN.
 Open Scope N_scope.
@@ -211,6 +213,7 @@ Section Tie.
     unfold ready_with in Hne |- *. rewrite next_block_eq in Hne |- *.
     cbn [Src3d.bfr_read_loop rep rep_mode b_mode b_src b_id b_cur b_offs Src3d.bfr_state Src3d.bfr_src].
     cbn [b_src b_id] in Hne.
+    rewrite (block_from_src S FNMAX T_START T_CONTENT T_EOA T_EOF s).
     destruct (pb s) as [s1 [blk|e|x]].
     2,3: rewrite (Hrb s1 eq_refl); apply out_rel_eq.
     rewrite (Hrb s1 eq_refl). clear Hrb.
@@ -269,6 +272,23 @@ Section Tie.
     destruct (g_read F (rep b) n) as [x r]. cbn [fst snd] in *. now rewrite H1, (H3 Hc).
   Qed.
 
+  (* ---------- work package blockT: the block parser is no longer a trusted link ---------- *)
+  (* `g_read`, `g_get_file`, `g_get_hash` (gen/Src3d.v) call the TRANSLATED `ArchiveFileBlock::from` of
+     gen/Src3b.v where the source says `ArchiveFileBlock::from(&mut self.src)`; the theorems above rewrite
+     it to Blocks.parse_block with SrcTie3Block.block_from_src at every call.  Witness (the translated
+     `read` in state Ready hands on exactly what the translated `from` returned as an error): *)
+  Lemma bfr_read_calls_translated_from fuel (x : BFR) n s1 e :
+    Src3d.bfr_state S x = Src3d.Ready ->
+    Src3b.ArchiveFileBlock_from S FNMAX T_START T_CONTENT T_EOA T_EOF 636 (Src3d.bfr_src S x) = (s1, Err e) ->
+    g_loop (Datatypes.S fuel) x n = (Src3d.set_bfr_src S x s1, Err e).
+  Proof. intros Hst Hf. cbn [Src3d.bfr_read_loop]. rewrite Hst, Hf. reflexivity. Qed.
+  (* the simulation with the whole reading path translated: `read` over the translated `from` *)
+  Corollary bfr_read_sim_full zf F (b : bstate S) n :
+    (Datatypes.S zf * Datatypes.S (Datatypes.S (length (b_offs b))) <= F)%nat ->
+    snd (m_bread zf b n) <> Err EFuel ->
+    out_rel (m_bread zf b n) (g_read F (rep b) n).
+  Proof. exact (bfr_read_sim zf F b n). Qed.
+
   (* ---------- ArchiveReader::get_file (with BlocksToFileReader::new) = Reader.get_file ---------- *)
   Definition rep_file (name : bytes) (x : res (option (bstate S * N))) : res (option (bytes * BFR * N)) :=
     match x with
@@ -287,6 +307,7 @@ Section Tie.
     destruct (fi_offsets fi) as [|o0 rest] eqn:Eo; cbn [Src3d.vec_is_empty]; [reflexivity|].
     change (N.to_nat 0) with 0%nat; cbn [nth_error].
     destruct (sk S s (FromStart o0)) as [s1 [p|e|x]]; [|reflexivity|reflexivity].
+    rewrite (block_from_src S FNMAX T_START T_CONTENT T_EOA T_EOF s1).
     destruct (pb s1) as [s2 [blk|e|x]]; [|reflexivity|reflexivity].
     destruct blk; reflexivity.
   Qed.
@@ -304,6 +325,7 @@ Section Tie.
     cbn [r_src r_meta Src3d.ar_metadata Src3d.ar_src Src3d.set_ar_src].
     destruct (flookup m name) as [fi|]; [|reflexivity].
     destruct (sk S s (FromStart (fi_eof fi))) as [s1 [p|e|x]]; [|reflexivity|reflexivity].
+    rewrite (block_from_src S FNMAX T_START T_CONTENT T_EOA T_EOF s1).
     destruct (pb s1) as [s2 [blk|e|x]]; [|reflexivity|reflexivity].
     destruct blk; reflexivity.
   Qed.
